@@ -32,7 +32,7 @@ from fileformats.generic import File
 
 from harness import core
 from harness.extractors.job_skeleton import extract_job_skeleton
-from harness.engines.cachehist import private_hash_cache
+from harness.engines.cachehist import ChildRunner
 from pydra.compose import python, shell
 
 META = {
@@ -48,7 +48,7 @@ META = {
     "collision-extraction form (no injectivity assumed); C19_reported — through Submitter.__call__ a detected change reaches "
     "the caller as the raised RuntimeError or as the submitter's ERROR log record; C19_copy_mode / C19_link_modes — staging with "
     "mode copy isolates the original, the other modes expose it; C19_witness_python_copy (D60) — python tasks never see the staged "
-    "copy.  Tied to pydra/engine/job.py, compose/base/task.py, compose/python.py, engine/submitter.py by running the pool.",
+    "copy.  Tied to pydra/engine/job.py, compose/base/task.py, compose/python.py, engine/submitter.py by running the pool. C19_skeleton (decide over the regenerated skeleton of Job.run / run_async): the check is performed once on the normal path, after the body, after the result is saved and after the job lock is released.",
     "note": "Trusted: Lean kernel; hand-written model HashCheck.lean; the real hash_function enters as the parameter `hash` "
     "(its own properties are C08's subject); fileformats' FileSet.copy honours the requested mode (C34); the harness-side "
     "replica of each body's effect.",
@@ -447,20 +447,36 @@ def spec_ok_of(case, obs) -> tuple[bool, str]:
         why.append("result not stored under the checksum of the original inputs")
     if touched and not staged_copy and not (obs["exc"] or obs["logged"]):
         why.append("in-place change not reported")
+    if obs["exc"] in ("HANG", "CRASH"):
+        why.append("submission did not return")
     if case["kind"] in ("filecopy",) or staged_copy:
         if obs["orig_changed"]:
             why.append("copy mode 'copy' but the original file changed")
     return (not why), "; ".join(why)
 
 
+WATCHDOG_S = float(__import__("os").environ.get("VERIF_WATCHDOG_S", "900"))  # per case; generous: the machine may be heavily loaded
+HUNG = {"exc": "HANG", "logged": False, "changed": None, "dir": "none", "stored_errored": None, "orig_changed": None}
+
+
+def child_case(case: dict, sandbox: Path):
+    obs, hashes = impl_case(case, sandbox)
+    return {"obs": obs, "hashes": [list(h) for h in hashes]}
+
+
 def run_cases(ctx, cases):
-    private_hash_cache(ctx.scratch)
     impls = []
-    for c in cases:
-        sb = ctx.scratch / f"c19-{len(impls)}-{ctx.rng.randrange(10**9)}"
-        sb.mkdir()
-        impls.append(impl_case(c, sb))
-        shutil.rmtree(sb, ignore_errors=True)
+    for c, r in zip(cases, ChildRunner("harness.props.C19:child_case", ctx.scratch, WATCHDOG_S).run(cases, "c19")):
+        if "ok" in r:
+            impls.append((r["ok"]["obs"], [tuple(h) for h in r["ok"]["hashes"]]))
+        elif "harness_error" in r:
+            raise RuntimeError("harness function failed in the child: " + r["harness_error"] + "\n" + r.get("trace", ""))
+        else:
+            from pydra.utils.hash import hash_function
+
+            sb = ctx.scratch / f"c19-hashes-{len(impls)}"
+            sb.mkdir()
+            impls.append((dict(HUNG, exc="HANG" if "hang" in r else "CRASH"), field_hashes(c, sb, hash_function)))
     queries, spans = [], []
     for c, (_, hs) in zip(cases, impls):
         q = model_queries(c, hs)
@@ -506,16 +522,14 @@ CORPUS = [
 
 def correspondence(ctx):
     core.assert_repo_loaded()
-    # known finding D60 first
-    sb = ctx.scratch / "d60"
-    sb.mkdir()
-    obs, _ = impl_case(D60_WITNESS, sb)
-    if any(f["id"] == "D60" for f in ctx.known()):
-        ctx.finding("D60", obs["orig_changed"], f"python task, copy_mode=copy, body appends to its file argument -> {obs}")
+    # known finding D60 first (its witness is case 0)
     cases = [D60_WITNESS] + CORPUS
-    cases += [gen_case(ctx.rng, "debug") for _ in range(ctx.pick(50, 900))]
-    cases += [gen_case(ctx.rng, "cf") for _ in range(ctx.pick(3, 40))]
-    run_cases(ctx, cases)
+    cases += [gen_case(ctx.rng, "debug") for _ in range(ctx.pick(50, 600))]
+    cases += [gen_case(ctx.rng, "cf") for _ in range(ctx.pick(3, 30))]
+    impls = run_cases(ctx, cases)
+    obs = impls[0][0]
+    if any(f["id"] == "D60" for f in ctx.known()):
+        ctx.finding("D60", obs["orig_changed"] is True, f"python task, copy_mode=copy, body appends to its file argument -> {obs}")
 
 
 def search(ctx):
